@@ -258,6 +258,43 @@ Theorem tv_poweron_commit_check_before_set_refuted :
 Proof. exact tv_poweron_commit_check_before_set_refuted_proof. Qed.
 Print Assumptions tv_poweron_commit_check_before_set_refuted.
 
+(* Reset records carry the LEVEL of the reset signal, untranslated: every `RST name v` of the file has v = the level some
+   onReset callback reported for that reset (whether that level means "in reset" is rst_asserted activeHigh level =
+   (level == activeHigh), a property of the clock, not of the file) ... *)
+Theorem tv_rst_record_is_level : forall cbs n v,
+  In (TRst n v) (tv_stream cbs) -> exists l, In (CbReset n l) cbs /\ v = bool_text l.
+Proof. exact tv_rst_record_is_level_proof. Qed.
+Print Assumptions tv_rst_record_is_level.
+
+(* ... so the level the reset port has after the interpreter replayed the file is a level the simulator reported ... *)
+Theorem tv_rst_replay_level : forall cbs n v,
+  tv_rst_level n (tv_stream cbs) None = Some v -> exists l, In (CbReset n l) cbs /\ v = bool_text l.
+Proof. exact tv_rst_replay_level_proof. Qed.
+Print Assumptions tv_rst_replay_level.
+
+(* ... and a CHECK recorded after a phase boundary follows the reset changes recorded before that boundary. *)
+Theorem tv_check_after_rst : forall c1 n a c2 m b w tw c3 t,
+  check_text b w = Some tw ->
+  tv_cur (tv_run_from tv_init c1) <> PhDuring ->
+  existsb is_delim c2 = true ->
+  exists v' pre mid post,
+    nonadv (tv_stream (c1 ++ CbReset n a :: c2 ++ CbRead m b w :: c3 ++ [CbDestroy t]))
+    = pre ++ TRst n v' :: mid ++ TCheck m tw :: post.
+Proof. exact tv_check_after_rst_proof. Qed.
+Print Assumptions tv_check_after_rst.
+
+(* active-low reset: asserted at power-on = level 0, released = level 1; the file shows the levels *)
+Example ex_active_low :
+  let cbs := [CbPowerOn; CbReset "rst_n" false; CbCommit;
+              CbNewPhase PhBefore (1 # 100000000); CbNewPhase PhDuring (1 # 100000000); CbReset "rst_n" true; CbAfterMicroTick;
+              CbNewPhase PhAfter (1 # 100000000); CbCommit;
+              CbNewPhase PhBefore (3 # 200000000); CbNewPhase PhDuring (3 # 200000000); CbAfterMicroTick;
+              CbNewPhase PhAfter (3 # 200000000); CbDestroy (1 # 50000000)]%string in
+  tv_file cbs = ["ADV"; "2500"; "RST"; "rst_n"; "0"; "ADV"; "8500"; "RST"; "rst_n"; "1"]%string
+  /\ rst_asserted false false = true /\ rst_asserted false true = false
+  /\ tv_rst_level "rst_n" (tv_stream cbs) None = Some "1"%string.
+Proof. vm_compute. repeat split. Qed.
+
 (* --- hypotheses satisfiable: SET at power-on, one tick with a micro tick, a read at the commit of that tick --- *)
 Definition ex_cbs : list cb :=
   [CbPowerOn; CbReset "reset" true; CbSet "in_a" [B1; B1; B0; B0]; CbCommit;
